@@ -14,7 +14,7 @@ LEVEL = "model_checking"
 TECHNIQUE = "(a) breadth-first explicit-state search over constructor / encode / decode / discard histories over pairs and triples of command classes with a differential oracle (same operation alone); (b) preemption-bounded exhaustive enumeration of thread schedules at source-line granularity under a sys.settrace + semaphore-baton scheduler owning real threads"
 RULE = ("(a) pool of 10 classes chosen to collide (6/10/12/16-byte CDBs, inherited layout, constructors that raise after touching shared state, "
         "mutable arguments); operations new(X, 2 argument variants), new-invalid(X), X.unmarshall_cdb, X.marshall_cdb, repeat-marshal with the same "
-        "caller objects, a caller-owned segment dictionary re-used after the caller changed its kind (also after a refused construction), first-use in 13 fresh processes (see C02), two commands over one caller-owned buffer with the first discarded and garbage-collected (WRITE, WRITE SAME, EXTENDED COPY inline data, ATA PASS-THROUGH 12/16 x all 256 ATA command codes x both directions), del; BFS with de-duplication on a digest of class-level state + live objects, all pairs to depth 4 (thorough 5) and all "
+        "caller objects, deep copy of a live command (then modified), display helpers (print_cdb / print / repr) of a command, a caller-owned segment dictionary re-used after the caller changed its kind (also after a refused construction), first-use in 13 fresh processes (see C02), two commands over one caller-owned buffer with the first discarded and garbage-collected (WRITE, WRITE SAME, EXTENDED COPY inline data, ATA PASS-THROUGH 12/16 x all 256 ATA command codes x both directions), del; BFS with de-duplication on a digest of class-level state + live objects, all pairs to depth 4 (thorough 5) and all "
         "triples to depth 3 (thorough 4); in every state every live object and every class's codec is compared with what the same call yields "
         "alone; decode histories A,B,A over every ordered pair of 20 response kinds in a fresh process (result for A identical before and after B). (b) 2 threads (thorough: also 3), each 'c=X(..); bytes(c.cdb); X.unmarshall_cdb; X.marshall_cdb; len(c.datain)', every ordered "
         "pair of pool classes, plus decoder threads (standard INQUIRY, VPD 83h, MODE SENSE(10), REPORT LUNS, RTPG, READ FULL STATUS, READ ELEMENT STATUS, sense) in all ordered pairs, all schedules with at most 1 preemption at every traced source line of the library (thorough: also all schedules with at most 2 preemptions at function-entry granularity for the pairs over 5 classes of different CDB lengths, and 2 preemptions at "
@@ -283,6 +283,38 @@ def run_history(names, hist):
                                 % (where, first, second, a[3].hex()[:80], b[3].hex()[:80])))
             except Exception as e:   # noqa: BLE001
                 out.append(("reused_argument_raises/%s" % name, "%s: raised %s: %s" % (where, type(e).__name__, e)))
+        elif kind == "api":
+            # display helpers are observers: print_cdb(), print(), repr() of a live command (or of a fresh one) change nothing anywhere
+            import contextlib
+            import io
+            target = next((c for (n_, v_, c, born) in live if n_ == name), None)
+            try:
+                if target is None:
+                    target = cls(opcode_for(name), **kwargs_for(name, 0))
+                with contextlib.redirect_stdout(io.StringIO()):
+                    target.print_cdb()
+                    print(target)
+                    repr(target)
+            except Exception as e:   # noqa: BLE001
+                out.append(("display_helper_raises/%s" % name, "%s: raised %s: %s" % (where, type(e).__name__, e)))
+        elif kind == "cpy":
+            # a deep copy of a live command is a command of its own: equal now, and changing it leaves the original (and every class) alone
+            for (n_, v_, c, born) in list(live):
+                if n_ != name:
+                    continue
+                try:
+                    d = copy.deepcopy(c)
+                    if observe_obj(d) != born:
+                        out.append(("copy_differs/%s" % name, "%s: the deep copy of a %s has cdb %s, the original %s" % (where, name, bytes(d.cdb).hex(), born[0].hex())))
+                    d.cdb[0] ^= 0xFF
+                    if len(d.datain):
+                        d.datain[0] ^= 0xFF
+                    if isinstance(d.dataout, bytearray) and len(d.dataout):
+                        d.dataout[0] ^= 0xFF
+                    d.result["x"] = 1
+                except Exception as e:   # noqa: BLE001
+                    out.append(("copy_raises/%s" % name, "%s: deepcopy raised %s: %s" % (where, type(e).__name__, e)))
+                break
         elif kind == "del":
             if live:
                 live.pop(0)
@@ -306,6 +338,10 @@ def ops_for(names):
             ops.append(("rep", n))
         if n in ("ExtendedCopy4", "ExtendedCopy5"):
             ops += [("xre", n, 0), ("xre", n, 1), ("xre", n, 2)]
+        if n in ("Read10", "Inquiry", "ExtendedCopy4", "WriteSame16", "PersistentReserveInReadKeys"):
+            ops.append(("cpy", n))
+        if n in ("Read16", "ModeSense6", "ExtendedCopy5"):
+            ops.append(("api", n))
     ops.append(("del", names[0]))
     return ops
 
